@@ -196,3 +196,45 @@ def evaluate(outs, av, *, simplify, optimize, cache=False, stats=None, nprocs=1)
 def silence_logs():
     import treelog
     treelog.current = treelog.NullLog() if hasattr(treelog, 'NullLog') else treelog.current
+
+
+_POISON = {'f': numpy.nan, 'c': complex(numpy.nan, numpy.nan), 'i': -987654321, 'u': 987654321, 'b': True}
+POISON_COUNT = [0]
+
+
+def install_uninitialised_memory_poison():
+    """MemorySanitizer-style monitor for pure-numpy code: every array obtained from numpy.empty / empty_like (also
+    parallel.shempty, which maps anonymous memory = zeros, so a missing fill would go unnoticed) is filled with a poison
+    value, so that a read of memory the generated code never wrote shows up deterministically as NaN / -987654321 / True
+    in the result instead of depending on what the allocator happens to return."""
+    if 'poison' in _installed:
+        return
+    orig_empty, orig_empty_like = numpy.empty, numpy.empty_like
+
+    def fill(a, frame):
+        # only allocations requested by nutils modules or by generated code ('function_<sha1>' scripts)
+        g = frame.f_globals
+        if not (str(g.get('__name__', '')).startswith('nutils') or frame.f_code.co_filename.startswith('function_')):
+            return a
+        p = _POISON.get(a.dtype.kind)
+        if p is not None and a.size:
+            if a.dtype.kind in 'iu' and a.dtype.itemsize < 4:
+                p = 77
+            a.fill(p)
+            POISON_COUNT[0] += 1
+        return a
+
+    def empty(*args, **kwargs):
+        return fill(orig_empty(*args, **kwargs), sys._getframe(1))
+
+    def empty_like(*args, **kwargs):
+        return fill(orig_empty_like(*args, **kwargs), sys._getframe(1))
+    numpy.empty = empty
+    numpy.empty_like = empty_like
+    from nutils import parallel
+    orig_shempty = parallel.shempty
+
+    def shempty(*args, **kwargs):
+        return fill(orig_shempty(*args, **kwargs), sys._getframe(1))
+    parallel.shempty = shempty
+    _installed['poison'] = True
